@@ -272,6 +272,34 @@ def run(ctx):
     canary_ok = impl_row(E[3], E) != impl_row(E[4], E)
     ctx.obligation("canary: comparator distinguishes different rows", canary_ok)
     ctx.correspondence("zleb/join/meet rows vs is_subseteq/join/meet", len(rows) * n, mism)
+    # --- answers must not depend on WHICH objects are compared: elements built afresh, compared, and dropped, over and over (after the
+    #     package's zone pass has been imported and run by the prelude); the answer for a pair of a given structure never changes ---
+    import gc
+    seen_answers, churn_bad = {}, []
+    small = NAMES
+    l = L()
+    makers = [lambda: l.GetItemOfZone(l.SpecZone("a"), l.NotZone()), lambda: l.GetItemOfZone(l.SpecZone("b"), l.NotZone()),
+              lambda: l.GetSubGridOfZone(l.SpecZone("a"), l.NotZone(), l.NotZone()), lambda: l.GetSubGridOfZone(l.SpecZone("b"), l.NotZone(), l.NotZone()),
+              lambda: l.GetItemOfZone(l.UnknownZone(), l.NotZone()), lambda: l.GetItemOfZone(l.GetItemOfZone(l.SpecZone("a"), l.NotZone()), l.NotZone()),
+              lambda: l.GetSubGridOfZone(l.GetItemOfZone(l.SpecZone("b"), l.NotZone()), l.NotZone(), l.NotZone()), lambda: l.GetItemOfZone(l.SpecZone("a"), l.SpecZone("b")),
+              lambda: l.SpecZone("a"), lambda: l.UnknownZone(), lambda: l.NotZone(), lambda: l.InvalidZone()]
+    for it in range(ctx.pick(6000, 40000)):
+        # (a small family of structures, so that every pair of structures recurs many times on fresh objects)
+        a, b = (rng.choice(makers)(), rng.choice(makers)()) if it % 4 else (rand_elem(rng, 2, small), rand_elem(rng, 2, small))
+        key = (show(a), show(b))
+        ans = ("T" if LE(a, b) else "F") + ("T" if LE(b, a) else "F") + code(J(a, b), a, b) + code(M(a, b), a, b)
+        ctx.evaluations += 1
+        if key in seen_answers and seen_answers[key] != ans and len(churn_bad) < 5:
+            churn_bad.append((key, seen_answers[key], ans))
+        seen_answers.setdefault(key, ans)
+        del a, b
+        if it % 500 == 0:
+            gc.collect()
+    ctx.count("pairs of freshly built and dropped elements compared (distinct structures)", len(seen_answers))
+    for key, first, later in churn_bad:
+        ctx.fail({"law": "answers_depend_only_on_structure", "elements": list(key)}, {"a": key[0], "b": key[1], "churn": True},
+                 f"is_subseteq / join / meet of {key[0][:60]} and {key[1][:60]} answered {first} the first time and {later} for equal elements built later "
+                 "(order a<=b, b<=a, join, meet)")
     # --- correspondence: random deep pairs ---
     names = NAMES + ["", "zone_x"]
     npairs = ctx.pick(400, 4000)
@@ -349,6 +377,20 @@ def replay(data):
             return env[toks[i][:-2]](), i + 1
         return rd(0)[0]
     inp = data["input"]
+    if inp.get("churn"):
+        # rebuild equal elements many times over and watch the answers
+        import gc
+        first = None
+        for it in range(4000):
+            x, y = parse(inp["a"]), parse(inp["b"])
+            ans = (LE(x, y), LE(y, x), code(J(x, y), x, y), code(M(x, y), x, y))
+            first = first or ans
+            if ans != first:
+                return True, f"equal elements built later answer {ans}, the first pair answered {first}"
+            # other elements in between, to move the allocator along
+            parse(inp["b"]), parse(inp["a"])
+            del x, y
+        return False, "the answers depend on the structure only"
     els = [parse(s) for s in inp["elements"]]
     law = inp["law"]
     a = els[0]
